@@ -243,6 +243,8 @@ class World:
         if out.crashed:
             self.stats["crashes"] += 1
             self.restart(session)
+        elif out.fired and not all(k in BENIGN_FAULTS for k in out.fired):
+            self.step_faulted = True      # the process lives on with whatever the failed call left in memory
         if out.ok and out.fired and not all(k in BENIGN_FAULTS for k in out.fired):
             self.probes["swallowed_fault"] += 1
         for p in fs.foreign_touched:  # the foreign actor (toctou) changed these, not the call
@@ -280,6 +282,7 @@ class World:
     # ----- step execution -----
     def apply(self, step):
         self.step_no += 1
+        self.step_faulted = False
         self.cur = {"n": self.step_no, "op": step["op"], "sess": step.get("sess"), "args": sha(step),
                     "io": [], "out": [], "res": [], "foreign": set()}
         before = self.fs.files()
@@ -590,6 +593,7 @@ def run_seed(prop, seed, tier, faulty, keep_trace=False):
     gen_rng = rng.fork("gen")
     env_rng = rng.fork("env")
     flt_rng = rng.fork("flt")
+    aft_rng = rng.fork("aftermath")
 
     def steps_iter(world):
         for _ in range(cfg["max_steps"]):
@@ -606,6 +610,12 @@ def run_seed(prop, seed, tier, faulty, keep_trace=False):
                 step.pop("io", None)
                 step.pop("hint", None)
             yield step
+            # aftermath of a failed call: the objects it worked on are still in the caller's hands; bias the workload
+            # towards fault-free calls that use exactly those objects next (faults without workload test nothing)
+            if getattr(world, "step_faulted", False) and hasattr(prop, "gen_aftermath") and aft_rng.chance(0.7):
+                for follow in prop.gen_aftermath(world, step, aft_rng) or ():
+                    world.probes["aftermath_step"] += 1
+                    yield follow
         # recovery phase (bounded liveness): faults stop, every path left indeterminate must accept a
         # fault-free write followed by a fault-free load that satisfies the property in full
         if faulty and hasattr(prop, "gen_recovery"):
